@@ -22,6 +22,10 @@ DOCS = [
     ("valid-with-blank-lines", "PROGRAM pv\nVAR x : INT; END_VAR\nx := 1;\nEND_PROGRAM\n\n\t \n"),
     ("valid-trimmed", "PROGRAM pv\nVAR x : INT; END_VAR\nx := 1;\nEND_PROGRAM"),
     # two places that are no token: `check` reports the first (the parse stops there); so must the server
+    # a syntax error whose unexpected token is a long string of two-byte characters, starting at an even and at an odd byte offset:
+    # wherever a message that quotes the token is cut, shortened or measured in bytes, one of the two has a character across that place
+    ("syntax-error-at-long-cyrillic-string", "PROGRAM pcy\nVAR x : INT; END_VAR\n'" + "Жщ" * 800 + "'\nEND_PROGRAM\n"),
+    ("syntax-error-at-long-cyrillic-string-shifted", "PROGRAM pcy\nVAR x : INT; END_VAR\n'#" + "Жщ" * 800 + "'\nEND_PROGRAM\n"),
     ("lexical-errors-two", "PROGRAM pl2\nVAR x : INT; END_VAR\nx := 1 ? 2;\nx := 3 ! 4 ?? 5;\nEND_PROGRAM\n"),
 ]
 
